@@ -4,6 +4,7 @@
 
 class DirectSolverTakeCustomLU : public DirectSolver
 {
+    VERIF_FRIEND
 public:
     explicit DirectSolverTakeCustomLU(const PolarGrid& grid, const LevelCache& level_cache,
                                       const DomainGeometry& domain_geometry,
